@@ -19,7 +19,7 @@ import (
 // ---- wspool suite (C20 pool half): the real WebSocketPool under virtual time with fake connections ----
 
 type WpOp struct {
-	K string `json:"k"`           // put get close adv shutdown stats
+	K string `json:"k"`           // put get close adv shutdown stats cput (C concurrent puts of new connections)
 	B int    `json:"b,omitempty"` // backend
 	C int    `json:"c,omitempty"` // connection: 0 = a brand-new one, k>0 = the k-th oldest connection currently held by clients
 	D int64  `json:"d,omitempty"` // ns
@@ -120,6 +120,30 @@ func runWpCase(c WpCase) (string, map[string]int) {
 			if !ok {
 				stats["put_refused"]++
 			}
+		case "cput":
+			// C new connections are returned to backend B by callers that are released at once (the first Puts for a backend are the
+			// interesting ones); which of them are accepted does not depend on their order as long as C <= max_idle
+			n := op.C
+			fs := make([]*fakeConn, n)
+			oks := make([]bool, n)
+			for i := range fs {
+				fs[i] = newConn()
+				fs[i].pooledB = op.B
+			}
+			start := make(chan struct{})
+			var wg sync.WaitGroup
+			for i := range fs {
+				wg.Add(1)
+				go func(i int) { defer wg.Done(); <-start; oks[i] = pool.Put(fmt.Sprintf("b%d", op.B), fs[i]) }(i)
+			}
+			synctest.Wait()
+			close(start)
+			wg.Wait()
+			for i, f := range fs {
+				ops = append(ops, fmt.Sprintf("WPut %d %d", op.B, f.id))
+				obs = append(obs, B01(oks[i]))
+			}
+			stats["cput"]++
 		case "get":
 			got := pool.Get(fmt.Sprintf("b%d", op.B))
 			ops = append(ops, fmt.Sprintf("WGet %d", op.B))
@@ -313,6 +337,19 @@ func TestWsPool(t *testing.T) {
 				{MaxIdle: 3, Timeout: 20 * s, Ops: []WpOp{{K: "put", B: 1}, {K: "adv", D: 15 * s}, {K: "put", B: 2}, {K: "put", B: 2}, {K: "hook", B: 1, C: 2}, {K: "stats", B: 1}, {K: "stats", B: 2}, {K: "get", B: 2}}},
 				// five pooled connections of which two report an error on Close: Shutdown closes every one of them
 				{MaxIdle: 3, Timeout: 300 * s, Ops: []WpOp{{K: "put", B: 1}, {K: "put", B: 1}, {K: "put", B: 1}, {K: "put", B: 2}, {K: "put", B: 2}, {K: "put", B: 2}, {K: "shutdown"}, {K: "stats", B: 1}, {K: "stats", B: 2}, {K: "get", B: 1}, {K: "get", B: 2}}},
+			}
+			// the first connections returned for a backend arrive together: every accepted one is pooled (counted, handed out again,
+			// closed by Shutdown); 150 backends, eight callers each
+			{
+				c := WpCase{MaxIdle: 8, Timeout: 300 * s}
+				for b := 100; b < 250; b++ {
+					c.Ops = append(c.Ops, WpOp{K: "cput", B: b, C: 8})
+				}
+				for b := 100; b < 250; b += 10 {
+					c.Ops = append(c.Ops, WpOp{K: "stats", B: b}) // not a get: which of the eight comes out first depends on their order of arrival
+				}
+				c.Ops = append(c.Ops, WpOp{K: "shutdown"})
+				corpus = append(corpus, c)
 			}
 			for _, c := range corpus {
 				emit("corpus", c)
